@@ -20,6 +20,64 @@ type rewrite struct {
 	name string
 	opts func(r *Rng) PrintOpts
 	pre  func(r *Rng) string // text placed before the root
+	tree func(r *Rng, n *Node) *Node // an equivalent tree (nil = the tree as it is)
+}
+
+// splitHead: the same head written differently — every declaration of mj-attributes with two or more attributes written as two
+// declarations, the declarations spread over two mj-attributes blocks (relative order kept), the other head elements moved in
+// front of or behind them
+func splitHead(r *Rng, n *Node) *Node {
+	d := n.Clone()
+	for _, k := range d.Kids {
+		if k.Tag != "mj-head" {
+			continue
+		}
+		var blocks, others []*Node
+		for _, h := range k.Kids {
+			if h.Tag != "mj-attributes" {
+				others = append(others, h)
+				continue
+			}
+			var decls []*Node
+			for _, e := range h.Kids {
+				var name [][2]string
+				var rest [][2]string
+				for _, a := range e.Attrs {
+					if e.Tag == "mj-class" && a[0] == "name" {
+						name = append(name, a)
+					} else {
+						rest = append(rest, a)
+					}
+				}
+				if len(rest) < 2 || len(e.Kids) > 0 {
+					decls = append(decls, e)
+					continue
+				}
+				cut := 1 + r.Intn(len(rest)-1)
+				a, b := &Node{Tag: e.Tag}, &Node{Tag: e.Tag}
+				a.Attrs = append(append([][2]string{}, name...), rest[:cut]...)
+				b.Attrs = append(append([][2]string{}, name...), rest[cut:]...)
+				decls = append(decls, a, b)
+			}
+			cut := 0
+			if len(decls) > 0 {
+				cut = r.Intn(len(decls) + 1)
+			}
+			b1 := &Node{Tag: "mj-attributes", Kids: decls[:cut]}
+			b2 := &Node{Tag: "mj-attributes", Kids: decls[cut:]}
+			blocks = append(blocks, b1, b2)
+		}
+		if len(blocks) == 0 {
+			continue
+		}
+		// mj-style elements keep their order among themselves; everything else may stand on either side of the attribute blocks
+		if r.Bool(1, 2) {
+			k.Kids = append(append([]*Node{}, blocks...), others...)
+		} else {
+			k.Kids = append(append([]*Node{}, others...), blocks...)
+		}
+	}
+	return d
 }
 
 var leadingComments = []string{"<!-- a comment -->\n", "\n\n  \n", "<!-- c1 --><!-- c2 -->\n\n", "\r\n<!-- multi\nline\ncomment -->\r\n", "  <!-- x --> \t\n",
@@ -33,26 +91,31 @@ var prologs = []string{"\ufeff", "\ufeff\n", "\ufeff<!-- c -->\n", "<?xml versio
 	"<!DOCTYPE mjml>\n", "<?xml version=\"1.0\"?>\n<!DOCTYPE mjml>\n<!-- c -->\n", "\ufeff\r\n\r\n", "<?xml version='1.0' standalone='yes'?>"}
 
 func rewrites() []rewrite {
+	plain := func(r *Rng) PrintOpts { return PrintOpts{} }
 	return []rewrite{
-		{"prolog", func(r *Rng) PrintOpts { return PrintOpts{} }, func(r *Rng) string { return r.Pick(prologs) }},
-		{"indent-lf", func(r *Rng) PrintOpts { return PrintOpts{Indent: true, Newline: "\n"} }, nil},
-		{"indent-crlf", func(r *Rng) PrintOpts { return PrintOpts{Indent: true, Newline: "\r\n"} }, nil},
-		{"attr-order", func(r *Rng) PrintOpts {
+		{name: "prolog", opts: plain, pre: func(r *Rng) string { return r.Pick(prologs) }},
+		{name: "indent-lf", opts: func(r *Rng) PrintOpts { return PrintOpts{Indent: true, Newline: "\n"} }},
+		{name: "indent-crlf", opts: func(r *Rng) PrintOpts { return PrintOpts{Indent: true, Newline: "\r\n"} }},
+		{name: "attr-order", opts: func(r *Rng) PrintOpts {
 			return PrintOpts{AttrPerm: func(n int) []int { return r.Perm(n) }}
-		}, nil},
-		{"single-quotes", func(r *Rng) PrintOpts { return PrintOpts{Quote: '\''} }, nil},
-		{"self-closing", func(r *Rng) PrintOpts { return PrintOpts{SelfClose: true} }, nil},
-		{"tag-space", func(r *Rng) PrintOpts {
-			return PrintOpts{TagSpace: func() string { return r.Pick([]string{"", "", " ", "  ", "\n", "\t", "\r\n "}) }, SelfClose: r.Bool(1, 2)}
-		}, nil},
-		{"tag-space-all", func(r *Rng) PrintOpts { return PrintOpts{TagSpace: func() string { return " " }} }, nil},
-		{"leading-comment", func(r *Rng) PrintOpts { return PrintOpts{} }, func(r *Rng) string {
-			return r.Pick(leadingComments)
 		}},
-		{"combined", func(r *Rng) PrintOpts {
+		{name: "single-quotes", opts: func(r *Rng) PrintOpts { return PrintOpts{Quote: '\''} }},
+		{name: "self-closing", opts: func(r *Rng) PrintOpts { return PrintOpts{SelfClose: true} }},
+		{name: "head-split", opts: plain, tree: splitHead},
+		{name: "tag-space", opts: func(r *Rng) PrintOpts {
+			return PrintOpts{TagSpace: func() string { return r.Pick([]string{"", "", " ", "  ", "\n", "\t", "\r\n "}) }, SelfClose: r.Bool(1, 2)}
+		}},
+		{name: "tag-space-all", opts: func(r *Rng) PrintOpts { return PrintOpts{TagSpace: func() string { return " " }} }},
+		{name: "leading-comment", opts: plain, pre: func(r *Rng) string { return r.Pick(leadingComments) }},
+		{name: "combined", opts: func(r *Rng) PrintOpts {
 			return PrintOpts{Indent: true, Newline: r.Pick([]string{"\n", "\r\n"}), AttrPerm: func(n int) []int { return r.Perm(n) },
 				Quote: []byte{'"', '\''}[r.Intn(2)], SelfClose: r.Bool(1, 2)}
-		}, func(r *Rng) string { return r.Pick([]string{"", "<!-- c -->\n", "\n"}) }},
+		}, pre: func(r *Rng) string { return r.Pick([]string{"", "<!-- c -->\n", "\n"}) }, tree: func(r *Rng, n *Node) *Node {
+			if r.Bool(1, 2) {
+				return splitHead(r, n)
+			}
+			return n
+		}},
 	}
 }
 
@@ -70,7 +133,7 @@ func renderSeq(src string, opts ...mjml.RenderOption) (string, string) {
 }
 
 func runC12(res *Result, tier string, seed int64, replay string) {
-	res.Rule = "metamorphic pairs: documents = seeded grammar documents (whole component grammar, heads with attributes / classes / fonts / styles) + every fixture for the debug rewrite; rewrites of the SOURCE: indentation + LF, indentation + CRLF (between structural elements only), attribute order within every tag, single quotes, self-closing empty elements, white space inside tags (before '>' and '/>', around '=', between attributes, in end tags), comments / blank lines / a byte-order mark / an XML declaration / a doctype before the root (all of them, exhaustively, on documents whose content is cut out of the source by position: mj-raw in head and body, mj-text, mj-table, mj-button, mj-style), and random combinations; outputs must be equal up to whitespace between tags (ids α-renamed), errors identical; rewrite of the OPTIONS: WithDebugTags output minus data-mj-debug-* attributes must equal the normal output byte for byte. HTMLTag correspondence: seeded operation lists on the real html.HTMLTag vs the Lean byte-exact model (driver `tag`). Non-trivial = document with ≥3 elements carrying ≥2 attributes; distinct by (document, rewrite)"
+	res.Rule = "metamorphic pairs: documents = seeded grammar documents (whole component grammar, heads with attributes / classes / fonts / styles) + every fixture for the debug rewrite; rewrites of the SOURCE: indentation + LF, indentation + CRLF (between structural elements only), attribute order within every tag, single quotes, self-closing empty elements, the head written differently (a declaration of mj-attributes split in two, the declarations spread over two blocks, other head elements before or after them), white space inside tags (before '>' and '/>', around '=', between attributes, in end tags), comments / blank lines / a byte-order mark / an XML declaration / a doctype before the root (all of them, exhaustively, on documents whose content is cut out of the source by position: mj-raw in head and body, mj-text, mj-table, mj-button, mj-style), and random combinations; outputs must be equal up to whitespace between tags (ids α-renamed), errors identical; rewrite of the OPTIONS: WithDebugTags output minus data-mj-debug-* attributes must equal the normal output byte for byte. HTMLTag correspondence: seeded operation lists on the real html.HTMLTag vs the Lean byte-exact model (driver `tag`). Non-trivial = document with ≥3 elements carrying ≥2 attributes; distinct by (document, rewrite)"
 	n := 250
 	if tier == "thorough" {
 		n = 8000
@@ -121,7 +184,11 @@ func runC12(res *Result, tier string, seed int64, replay string) {
 		})
 		for _, rw := range rws {
 			r := NewRng(seed, fmt.Sprintf("c12/%d/%s", i, rw.name))
-			v := d.node.Print(rw.opts(r))
+			tree := d.node
+			if rw.tree != nil {
+				tree = rw.tree(r, d.node)
+			}
+			v := tree.Print(rw.opts(r))
 			if rw.pre != nil {
 				v = rw.pre(r) + v
 			}
